@@ -241,6 +241,54 @@ pub fn next_port() -> SocketAddr {
     SocketAddr::from(([127, 0, 0, 1], port as u16))
 }
 
+/// AppService with the error type anemo-tower's layers expect.
+#[derive(Clone)]
+pub struct ToStatus(pub AppService);
+
+impl tower::Service<Request<Bytes>> for ToStatus {
+    type Response = Response<Bytes>;
+    type Error = anemo::rpc::Status;
+    type Future = BoxFuture<'static, Result<Response<Bytes>, anemo::rpc::Status>>;
+    fn poll_ready(&mut self, _: &mut Context<'_>) -> Poll<Result<(), Self::Error>> {
+        Poll::Ready(Ok(()))
+    }
+    fn call(&mut self, req: Request<Bytes>) -> Self::Future {
+        let fut = self.0.call(req);
+        Box::pin(async move {
+            match fut.await {
+                Ok(r) => Ok(r),
+                Err(e) => match e {},
+            }
+        })
+    }
+}
+
+/// Turns a Status error back into a response so the stack can be handed to a Network.
+#[derive(Clone)]
+pub struct FromStatus<S>(pub S);
+
+impl<S> tower::Service<Request<Bytes>> for FromStatus<S>
+where
+    S: tower::Service<Request<Bytes>, Response = Response<Bytes>, Error = anemo::rpc::Status>,
+    S::Future: Send + 'static,
+{
+    type Response = Response<Bytes>;
+    type Error = Infallible;
+    type Future = BoxFuture<'static, Result<Response<Bytes>, Infallible>>;
+    fn poll_ready(&mut self, cx: &mut Context<'_>) -> Poll<Result<(), Infallible>> {
+        self.0.poll_ready(cx).map(|_| Ok(()))
+    }
+    fn call(&mut self, req: Request<Bytes>) -> Self::Future {
+        let fut = self.0.call(req);
+        Box::pin(async move {
+            Ok(match fut.await {
+                Ok(r) => r,
+                Err(status) => anemo::types::response::IntoResponse::into_response(status),
+            })
+        })
+    }
+}
+
 #[derive(Clone)]
 pub struct NodeCfg {
     pub key: [u8; 32],
@@ -249,6 +297,14 @@ pub struct NodeCfg {
     pub config: Config,
     /// bind to this address (restart on the same address) or to an ephemeral port
     pub bind: Option<SocketAddr>,
+}
+
+thread_local! {
+    /// scenario switch: serve through ConcurrencyLimit(n) over InflightLimit(m, Block) (back-pressure
+    /// at the top of the service stack plus a per-peer limiter below it)
+    pub static SERVER_LIMITS: std::cell::Cell<Option<(usize, usize)>> = const { std::cell::Cell::new(None) };
+    /// scenario switch: install a (pass-through) user outbound request layer on new networks
+    pub static USER_OUTBOUND_LAYER: std::cell::Cell<bool> = const { std::cell::Cell::new(false) };
 }
 
 pub fn base_config() -> Config {
@@ -322,7 +378,22 @@ impl Sim {
             if let Some(alt) = &cfg.alt {
                 builder = builder.alternate_server_name(alt.clone());
             }
-            match builder.start(service.clone()) {
+            if USER_OUTBOUND_LAYER.with(|c| c.get()) {
+                builder = builder.outbound_request_layer(tower::layer::util::Identity::new());
+            }
+            let started = match SERVER_LIMITS.with(|c| c.get()) {
+                Some((conc, inflight)) => {
+                    let inner = tower::ServiceBuilder::new()
+                        .layer(anemo_tower::inflight_limit::InflightLimitLayer::new(
+                            inflight,
+                            anemo_tower::inflight_limit::WaitMode::Block,
+                        ))
+                        .service(ToStatus(service.clone()));
+                    builder.start(tower::limit::ConcurrencyLimit::new(FromStatus(inner), conc))
+                }
+                None => builder.start(service.clone()),
+            };
+            match started {
                 Ok(net) => break net,
                 Err(e) if cfg.bind.is_none() && tries < 50 => {
                     let _ = e;
@@ -603,7 +674,8 @@ pub fn log_rpc_result(
         Err(e) => run.obs(
             from,
             "obs.rpc_result",
-            json!({"nonce": nonce, "ok": false, "err": e, "must_succeed": must}),
+            json!({"nonce": nonce, "ok": false, "err": e, "must_succeed": must,
+                   "notconn": if e.starts_with("not connected") { Some(true) } else { None }}),
         ),
     }
 }
